@@ -350,10 +350,8 @@ class Typer:
         elif isinstance(n, ast.AugAssign):
             if isinstance(n.target, ast.Name):
                 self._add(e, n.target.id, self.expr(f, n.value, e))
-        elif isinstance(n, (ast.For, ast.AsyncFor)):
-            self._bind_target(f, n.target, self.iter_elem(f, n.iter, e), e)
-        elif isinstance(n, ast.comprehension):
-            self._bind_target(f, n.target, self.iter_elem(f, n.iter, e), e)
+        elif isinstance(n, (ast.For, ast.AsyncFor, ast.comprehension)):
+            self._bind_loop(f, n.target, n.iter, e)
         elif isinstance(n, (ast.With, ast.AsyncWith)):
             for it in n.items:
                 if it.optional_vars is not None:
@@ -380,6 +378,28 @@ class Typer:
                 local = (a.asname or a.name).split('.')[0]
                 r = self.repo.resolve_global(f.module, local)
                 self._add(e, local, self._denotation(r) or {'X:' + a.name})
+
+    def _bind_loop(self, f: FuncInfo, target: ast.AST, it: ast.AST, e):
+        if isinstance(target, (ast.Tuple, ast.List)) and isinstance(it, ast.Call):
+            fn = it.func
+            if isinstance(fn, ast.Name) and fn.id == 'enumerate' and it.args and len(target.elts) == 2:
+                self._bind_target(f, target.elts[0], {_mk('int')}, e)
+                self._bind_loop(f, target.elts[1], it.args[0], e)
+                return
+            if isinstance(fn, ast.Name) and fn.id == 'zip' and len(it.args) == len(target.elts):
+                for el, a in zip(target.elts, it.args):
+                    self._bind_loop(f, el, a, e)
+                return
+            if isinstance(fn, ast.Attribute) and fn.attr == 'items' and len(target.elts) == 2:
+                ts = self.expr(f, fn.value, e)
+                self._bind_target(f, target.elts[0], {t[2:] for t in ts if t.startswith('K:')}, e)
+                self._bind_target(f, target.elts[1], {t[2:] for t in ts if t.startswith('E:')}, e)
+                return
+        if isinstance(target, (ast.Tuple, ast.List)):
+            for el in target.elts:
+                self._bind_target(f, el.value if isinstance(el, ast.Starred) else el, set(), e)
+            return
+        self._bind_target(f, target, self.iter_elem(f, it, e), e)
 
     def iter_elem(self, f: FuncInfo, it: ast.AST, e=None) -> TSet:
         ts = self.expr(f, it, e)
@@ -689,6 +709,25 @@ class Typer:
                 if out:
                     return out
             callee = self._attr(f, recv, fn.attr)
+            # K.classmethod(...) that builds and returns an instance of `cls`: the result is a K
+            extra: TSet = set()
+            for t in recv:
+                if t.startswith('T:') and not t.startswith('T:b:'):
+                    k = self.repo.classes.get(t[2:])
+                    m = k.find_method(fn.attr) if k is not None else None
+                    if m is not None and m.is_classmethod and m.cls is not None:
+                        rt = self.returns(m)
+                        if ('C:' + m.cls.qual) in rt:
+                            extra.add('C:' + k.qual)
+            if extra:
+                base = set()
+                for t in callee:
+                    if t.startswith('F:'):
+                        mm = self.repo.functions.get(t[2:])
+                        if mm is not None and mm.name != '__init__':
+                            base |= {x for x in self.returns(mm)
+                                     if not (mm.cls is not None and x == 'C:' + mm.cls.qual)}
+                return base | extra
         else:
             callee = self._expr(f, fn, env)
         out: TSet = set()
